@@ -99,6 +99,15 @@ def step2 (st : Store × Option Store) (toks : List String) : (Store × Option S
     match e.toNat?, st.2 with
     | some e, some snap => let s' := recoverEpoch snap (e + 1); ((s', st.2), s!"OK g={s'.globalEpoch}")
     | _, _ => (st, "bad-op")
+  | ["push_snap"] =>
+    -- the snapshot is pushed to the running broker (`MetaStore::restore` on the live store)
+    match st.2 with
+    | some snap =>
+      match restoreInto st.1 snap with
+      | (s', .ok _) => ((s', st.2), s!"OK g={s'.globalEpoch}")
+      | (s', .err e) => ((s', st.2), s!"ERR {e.code} g={s'.globalEpoch}")
+      | _ => (st, "bad-op")
+    | none => (st, "bad-op")
   | _ => let (s', out) := step st.1 toks; ((s', st.2), out)
 
 def run : IO Unit := Um.Drv.loop (Store.init, none) step2
